@@ -119,7 +119,18 @@ fn expected_geometry(inp: &LInput, emb: &Embedding, sc: &SpecCell) -> Expected {
         let key = if pl.w > 0 { FKey::Wall(pl.w) } else { FKey::Ngb(pl.j as usize, pl.s) };
         let pts: Vec<DVec3> = hs.iter().map(|h| emb.point(inp, *h)).collect();
         // relative non-collinearity measured in lattice units of the box scale
-        let flat = if pts.len() >= 3 { non_collinearity(&pts) / scale.max(1.0f64.min(scale)) } else { 0.0 };
+        // (active coordinates in units of the box scale, unused ones in units of the unit slab: a 2D face is a
+        // segment x 1 whatever the scale of the active axes)
+        let flat = if pts.len() >= 3 {
+            let norm: Vec<DVec3> = pts.iter().map(|p| {
+                let mut q = *p;
+                for k in 0..3 {
+                    q[k] = if inp.active(k) { q[k] / scale } else { q[k] };
+                }
+                q
+            }).collect();
+            non_collinearity(&norm)
+        } else { 0.0 };
         let n = DVec3::new(pl.n[0] as f64, pl.n[1] as f64, pl.n[2] as f64).normalize();
         let hidden = (inp.dim..3).any(|k| pl.n[k] != 0);
         if pts.len() >= 3 && flat > 1e-7 {
@@ -1113,7 +1124,8 @@ pub fn main_tokens(args: &[String]) -> i32 {
             }
             let tok = match r {
                 Ok(v) => crate::tess::dump_token(&v),
-                Err(m) => format!("PANIC:{}", m.split('@').next().unwrap_or("").trim()),
+                // which of several failing cells reports first depends on the thread schedule: the message is not part of the token
+                Err(_) => "PANIC".to_string(),
             };
             toks.push(json!({"id": inp.id, "emb": ei, "tok": tok, "exact_calls": ec}));
         }
